@@ -855,6 +855,15 @@ orc_x86_compile (OrcCompiler *compiler)
   orc_x86_adjust_alignment (t, compiler);
 
   is_aligned = compiler->vars[align_var].is_aligned;
+  if (!is_aligned && !compiler->has_iterator_opcode) {
+    int i;
+
+    /* A head region will advance every array until align_var is aligned:
+     * the declared alignment of the other arrays does not hold after it */
+    for (i = ORC_VAR_D1; i <= ORC_VAR_S8; i++) {
+      compiler->vars[i].is_aligned = FALSE;
+    }
+  }
   {
     orc_x86_emit_loop (compiler, 0, 0);
 
